@@ -1160,6 +1160,10 @@ class Sequence:
         returns a tuple of (dmax, seqDeltaMax)
         """
 
+        # If only the value is cached but the permutant is wanted, search again
+        if returnSeqDeltaMax and self.seqDeltaMax is None:
+          self.dmax = -1
+
         # If this has been computed already, then return it
         if self.dmax != -1 and not returnSeqDeltaMax:
           return self.dmax
